@@ -4,6 +4,7 @@ import AcraModel.Keystore.Lemmas
 import AcraModel.Keystore.RingLemmas
 import AcraModel.Keystore.V1Lemmas
 import AcraModel.Keystore.RefineV1Step
+import AcraModel.Keystore.RefineV2Step
 /-!
 # C06 — rotation keeps old data readable; destruction removes exactly the chosen key
 
@@ -204,6 +205,54 @@ theorem v1_current_is_newest_survivor (ops : List Op) (hops : ∀ o ∈ ops, o.i
   · simp only [Spec.stepApi, hk, SpecSlot.current]
     cases ((Spec.runApi Fmt.v1 Spec.init ops).fst s).survivors.getLast? <;> simp
   · simp [Spec.stepApi, Spec.step, hk, SpecSlot.allNewestFirst, Kind.hasAll]
+
+/-! ## refinement: the v2 store shows exactly what the specification prescribes -/
+
+/-- **v2_step_simulation.** One operation of the v2 keystore from any state satisfying the run
+invariant (`V2.Inv`: no leftover temporary; a slot has a ring exactly when it was generated; sequence
+numbers `1..n`, key `q` carries generation `q` until destroyed, `current` is the newest key and it is
+not destroyed), other than destroy-current, that does not open a never-generated ring read-write
+(`Op.opensRW`: the poison readers and every destroy create an empty ring – known finding
+`v2:ring-without-current-key`), destroy-rotated being called with a listed index `≥ 2`: the invariant
+holds again, `V2.abs` commutes with the step and the store shows the specification's observation. -/
+theorem v2_step_simulation (st : V2) (o : Op) (hinv : st.Inv) (ho : o.isDcur = false)
+    (hrw : ∀ s, o.opensRW = some s → st.count s ≠ 0) (hidx : o.idxOk = true) :
+    (st.step o).1.Inv ∧ (st.step o).1.abs = (Spec.stepApi .v2 st.abs o).1 ∧
+    (st.step o).2 = (Spec.stepApi .v2 st.abs o).2 ∧ (st.step o).1.count = countStep st.count o :=
+  V2.step_sim st o hinv ho hrw hidx
+
+/-- **v2_refines_spec.** For every finite sequence of operations on a fresh v2 keystore (in-memory or
+directory back end) – generate/rotate, read current, read public, read all, list, list rotated,
+destroy rotated by listed index, reset, reopen, on any slots – *excluding* (1) destroy-current (known
+finding, `current_is_newest_survivor_counterexample`), (2) reads of a poison slot and destroy-rotated
+of any slot *before the first generation of that slot* (`genFirst`: these open the ring read-write
+and leave an empty ring without current key behind – known finding `v2:ring-without-current-key`,
+`v2_ringless_counterexample`), (3) destroy-rotated with an index below 2, which the listing never
+shows (Acra's command line routes index 1 to destroy-current; the Go function indexes a slice with
+`index-2`): every observation of the run equals the specification's and the abstraction of the final
+store is the specification's final state. -/
+theorem v2_refines_spec (ops : List Op) (hops : ∀ o ∈ ops, o.isDcur = false ∧ o.idxOk = true)
+    (hgf : genFirst (fun _ => false) ops = true) :
+    (V2.init.run ops).2 = (Spec.runApi .v2 Spec.init ops).2 ∧
+    (V2.init.run ops).1.abs = (Spec.runApi .v2 Spec.init ops).1 := by
+  have h := V2.run_sim ops V2.init (fun _ => false) V2.Inv.init (by intro s hs; cases hs) hops hgf
+  have habs : V2.init.abs = Spec.init := rfl
+  rw [habs] at h
+  exact ⟨h.2.2, h.2.1⟩
+
+def pp0 : Slot := ⟨.pp, 0⟩
+
+/-- **v2_ringless_counterexample** (known finding `v2:ring-without-current-key`). Hypothesis (2) of
+`v2_refines_spec` is needed: reading the poison key pair of a fresh store, or a destroy-rotated on a
+slot that was never generated, creates an empty ring; afterwards `ListKeys` fails for the whole store
+(the specification lists nothing, successfully), and read-all of the never-generated symmetric slot
+answers with an empty list instead of an error.
+Protocol: `C06.v2m c:pp l` → `err|err`; `C06.v2m dr:ss0:2 a:ss0 l` → `err|ok:-|err`. -/
+theorem v2_ringless_counterexample :
+    (V2.init.run [.cur pp0, .list]).2 = [.err, .err] ∧
+    (Spec.runApi .v2 Spec.init [.cur pp0, .list]).2 = [.err, .files []] ∧
+    (V2.init.run [.drot ss0 2, .all ss0, .list]).2 = [.err, .keys [], .err] ∧
+    (Spec.runApi .v2 Spec.init [.drot ss0 2, .all ss0, .list]).2 = [.err, .err, .files []] := by decide +kernel
 
 /-! ## non-vacuity -/
 
